@@ -689,10 +689,10 @@ func ruleReadIsParse(c *Ctx) {
 			if !ok {
 				continue
 			}
-			if r.IsNil() && op == "==" && strings.Contains(l.String(), "ParseData") && l.Op == "extract" && l.Aux == "1" {
+			if r.IsNil() && op == "==" && strings.Contains(l.String(), pd.Name()) && l.Op == "extract" && l.Aux == "1" {
 				errNil = true
 			}
-			if l.IsNil() && op == "==" && strings.Contains(r.String(), "ParseData") && r.Op == "extract" && r.Aux == "1" {
+			if l.IsNil() && op == "==" && strings.Contains(r.String(), pd.Name()) && r.Op == "extract" && r.Aux == "1" {
 				errNil = true
 			}
 		}
@@ -702,7 +702,7 @@ func ruleReadIsParse(c *Ctx) {
 		}
 		// the returned struct carries ParseData's first result
 		if !p.Ret[0].Any(func(x *Term) bool {
-			return x.Op == "extract" && x.Aux == "0" && len(x.Args) == 1 && x.Args[0].Op == "call" && strings.Contains(x.Args[0].Aux, "ParseData")
+			return x.Op == "extract" && x.Aux == "0" && len(x.Args) == 1 && x.Args[0].Op == "call" && strings.Contains(x.Args[0].Aux, pd.Name())
 		}) {
 			bad = "the DeviceConfig handed out on success does not carry the configuration ParseData returned: " + truncate(p.Ret[0].String(), 140)
 		}
